@@ -9,6 +9,4 @@ CONSTANTS
   ConsCfgs <- TraceConsCfgs
 CONSTRAINT Progress
 POSTCONDITION Accepted
-INVARIANT Conservation
-INVARIANT OneHolder
 CHECK_DEADLOCK FALSE
